@@ -44,6 +44,7 @@ def run(repo: Repo, tier: str, res: CheckResult, seed: int = 0) -> None:
     member_key_lookup(repo, m, res)
     silent_loss(repo, m, res)
     member_truthiness(repo, m, res)
+    seen_before_refusals(repo, m, res)
     res.assumptions = list(ASSUMPTIONS)
 
 
@@ -994,3 +995,50 @@ def member_truthiness(repo: Repo, m: ModuleInfo, res: CheckResult) -> None:
                                             "0, a str-mixin member '', the zero flag) is treated as not found and its correct "
                                             "representation is rejected", getattr(t, "lineno", 0)))
     res.count("ENUM.loader-dumper-closures", n, 8)
+
+
+def seen_before_refusals(repo: Repo, m: ModuleInfo, res: CheckResult) -> None:
+    """The case sequences the providers hand to the mapping generators come from `enum.__members__.values()`, which yields the
+    canonical member once MORE for every alias (RED = 1; CRIMSON = 1). A loop over the cases that refuses (raises) because a
+    derived value "was seen before" therefore refuses every class that has an alias -- creation is no longer total -- unless the
+    test also establishes that the earlier occurrence was a DIFFERENT member (identity / inequality of the case itself)."""
+    n = 0
+    for ci in m.classes.values():
+        if not (ci.name.endswith("MappingGenerator") or ci.name.endswith("Provider")):
+            continue
+        for mname, fn in ci.methods.items():
+            for loop in [x for x in ast.walk(fn) if isinstance(x, ast.For)]:
+                it = norm(loop.iter)
+                if not ("cases" in it or "__members__" in it):
+                    continue
+                lvars = {t.id for t in ast.walk(loop.target) if isinstance(t, ast.Name)}
+                # containers filled inside this loop
+                filled = set()
+                for x in ast.walk(loop):
+                    if isinstance(x, ast.Assign) and isinstance(x.targets[0], ast.Subscript):
+                        filled.add(norm(x.targets[0].value))
+                    if isinstance(x, ast.Call) and isinstance(x.func, ast.Attribute) and x.func.attr in ("add", "append", "setdefault"):
+                        filled.add(norm(x.func.value))
+                n += 1
+                res.evaluated(f"seen-before:{ci.name}.{mname}:{loop.lineno}", True)
+                for cond in [x for x in ast.walk(loop) if isinstance(x, ast.If)]:
+                    if not any(isinstance(r, ast.Raise) for st in cond.body for r in ast.walk(st)):
+                        continue
+                    def container(e: ast.expr) -> str:
+                        if isinstance(e, ast.Call) and isinstance(e.func, ast.Attribute) and e.func.attr in ("values", "keys", "items") and not e.args:
+                            return norm(e.func.value)
+                        return norm(e)
+                    seen_tests = [c for c in ast.walk(cond.test) if isinstance(c, ast.Compare) and isinstance(c.ops[0], ast.In)
+                                  and container(c.comparators[0]) in filled]
+                    if not seen_tests:
+                        continue
+                    same_member_excluded = any(
+                        isinstance(c, ast.Compare) and isinstance(c.ops[0], (ast.IsNot, ast.NotEq, ast.Is, ast.Eq))
+                        and any(isinstance(nm, ast.Name) and nm.id in lvars for nm in ast.walk(c))
+                        for c in ast.walk(cond.test))
+                    if not same_member_excluded:
+                        res.add(Finding("C18", "TOTAL.alias-refused-as-collision", m.rel, f"{ci.name}.{mname}", norm(cond.test)[:100],
+                                        f"the loop over `{it}` raises when `{norm(seen_tests[0])}` -- but the sequence repeats the canonical "
+                                        "member for every alias (`RED = 1; CRIMSON = 1`), so the member collides with ITSELF and no "
+                                        "loader or dumper can be created for any Enum / Flag class that has an alias", cond.lineno))
+    res.count("TOTAL.loops-over-cases", n, 2)
